@@ -448,7 +448,8 @@ HARNESSES = {'step': h_step, 'timer': h_timer, 'publish': h_publish, 'period': h
 
 def cases(tier, seed):
     cs = []
-    subsets = [[], [0], [1], [1, 2], [0, 1], [3], [0, 1, 2], [1, 3]]
+    # (entry ORDER inside the received vector matters to a loop that merges as it goes: own entry first / last / middle)
+    subsets = [[], [0], [1], [1, 2], [0, 1], [1, 0], [3], [0, 1, 2], [1, 0, 2], [1, 3]]
     for state in ('steady', 'suppression'):
         for rs in subsets:
             for lp in ([1, 1], [1, 0], [0, 0]):
